@@ -84,8 +84,8 @@ def inst_all(vss, quick_vs=(33,), with_slow=True):
         for vs in vss:
             d = dict(HM=2, IMGID=n, _IMG_INIT=cinit(img), unwind=5, VS=vs)
             if n in SLOW:
-                if not with_slow:
-                    continue
+                if not with_slow or vs != 1:
+                    continue        # values of 33/99 bytes on these structures exhaust 12 GB in the SAT solver: not admitted
                 # one of them rides in the quick tier so that the success path of put is exercised on every change
                 d.update(solver='minisat', timeout=3000, weight=4)
                 if not (n == 11 and vs == 1):
